@@ -34,6 +34,8 @@ fn main() {
         "sched" => sched::main(rest),
         "cancel" => sched::cancel_main(rest),
         #[cfg(feature = "internals")]
+        "tasktrace" => sched::tasktrace_main(rest),
+        #[cfg(feature = "internals")]
         "casttable" => casttable::main(rest),
         #[cfg(feature = "internals")]
         "tok" => tok::main(rest),
